@@ -245,7 +245,7 @@ func cloneMsg(m *fbb.Message) *fbb.Message {
 const alnum = "ABCDEFGHIJKLMNOPQRSTUVWXYZ0123456789"
 
 // The small universe of C10/C11: six MIDs, four addresses in several spellings.
-var midUniverse = []string{"AAAAAAAAAAA1", "B2", "CCCC3333CCCC", "D4D4D4", "E", "F6FBBF6FBB66"}
+var midUniverse = []string{"AAAAAAAAAAA1", "B2", "CCCC3333CCCC", "D4D4D4", "E", "F6FBBF6FBB66", "aaaaaaaaaaa1", "b2", "f6fbbF6FBB66"}
 
 // spellings[i] are different ways to write address i.
 var spellings = [][]string{
